@@ -400,13 +400,33 @@ func TestVerifCrash(t *testing.T) {
 	var wg sync.WaitGroup
 	sem := make(chan bool, gen.EnvInt("VERIF_CRASH_PAR", 8))
 	kinds := map[string]int{}
+	// VERIF_CRASH_ONLY="c:k c:k ..." : only these crash points (scenario index : durable step), for confirmation runs
+	only := map[string]bool{}
+	for _, x := range strings.Fields(os.Getenv("VERIF_CRASH_ONLY")) {
+		only[x] = true
+	}
 	for c := 0; c < N; c++ {
 		sc := vcGen(root.Sub(uint64(c)))
-		_, total, trace := vcOne(tmp, fmt.Sprintf("%d_0", c), sc, 0)
-		for _, tr := range trace {
-			kinds[strings.Fields(tr)[0]]++
+		total := 0
+		if len(only) == 0 {
+			var trace []string
+			_, total, trace = vcOne(tmp, fmt.Sprintf("%d_0", c), sc, 0)
+			for _, tr := range trace {
+				kinds[strings.Fields(tr)[0]]++
+			}
+		} else {
+			for x := range only {
+				var cc, kk int
+				if n, _ := fmt.Sscanf(x, "%d:%d", &cc, &kk); n == 2 && cc == c && kk > total {
+					total = kk
+				}
+			}
+			total -= 2
 		}
 		for k := 1; k <= total+2; k++ {
+			if len(only) > 0 && !only[fmt.Sprintf("%d:%d", c, k)] {
+				continue
+			}
 			wg.Add(1)
 			sem <- true
 			go func(c, k int) {
@@ -415,6 +435,7 @@ func TestVerifCrash(t *testing.T) {
 				line, _, _ := vcOne(tmp, fmt.Sprintf("%d_%d", c, k), sc, k)
 				if line != "" {
 					mu.Lock()
+					fmt.Fprintf(w, "# crash %d:%d\n", c, k)
 					w.WriteString(line)
 					mu.Unlock()
 				}
